@@ -36,6 +36,36 @@ theorem not_end_with_sep {p X q : Bytes} (hX : X ≠ []) (h1 : SOH ∉ X) :
     simp only [List.cons.injEq, and_true] at this
     apply h1; rw [this]; simp
 
+/-- the strict CheckSum parser: exactly three ASCII digits -/
+theorem ckParse_some {v : Bytes} {n : Nat} (h : ckParse v = some n) :
+    ∃ a b c, v = [a, b, c] ∧ isDigit a = true ∧ isDigit b = true ∧ isDigit c = true ∧
+      n = (a - 48) * 100 + (b - 48) * 10 + (c - 48) := by
+  unfold ckParse at h
+  split at h
+  · rename_i a b c
+    split at h
+    · rename_i hd
+      simp only [Bool.and_eq_true] at hd
+      cases h
+      exact ⟨a, b, c, rfl, hd.1.1, hd.1.2, hd.2, rfl⟩
+    · cases h
+  · cases h
+
+/-- … and it is injective: a CheckSum value is determined by the number it denotes -/
+theorem ckParse_inj {v1 v2 : Bytes} {n : Nat} (h1 : ckParse v1 = some n) (h2 : ckParse v2 = some n) :
+    v1 = v2 := by
+  obtain ⟨a, b, c, rfl, ha, hb, hc, hn⟩ := ckParse_some h1
+  obtain ⟨a', b', c', rfl, ha', hb', hc', hn'⟩ := ckParse_some h2
+  simp only [isDigit, Bool.and_eq_true, decide_eq_true_eq] at ha hb hc ha' hb' hc'
+  have : a = a' ∧ b = b' ∧ c = c' := by omega
+  rw [this.1, this.2.1, this.2.2]
+
+theorem ckParse_noSep {v : Bytes} {n : Nat} (h : ckParse v = some n) : SOH ∉ v := by
+  obtain ⟨a, b, c, rfl, ha, hb, hc, _⟩ := ckParse_some h
+  simp only [isDigit, Bool.and_eq_true, decide_eq_true_eq] at ha hb hc
+  simp only [List.mem_cons, List.not_mem_nil, or_false, SOH]
+  omega
+
 theorem ckfield_noSep {v : Bytes} (h : SOH ∉ v) : SOH ∉ ck3 ++ v := by
   intro hm
   rcases List.mem_append.1 hm with h1 | h1
@@ -73,7 +103,7 @@ theorem sum_subst_ne {a b : Bytes} {x y : Nat} (hx : x < 256) (hy : y < 256) (hx
 theorem decode_checksum' {bs : Bytes} {tbl : Tbl} {raw : Bytes} {m : Msg} {n : Nat} {enc : Bytes}
     (h : decode bs tbl raw = .msg m n enc) :
     ∃ pre v tail, enc = pre ++ SOH :: (ck3 ++ v) ++ tail ∧ (tail = [] ∨ tail = [SOH]) ∧ SOH ∉ v ∧
-      pyInt v = some (((sum pre + 1) % 256 : Nat) : Int) ∧ pre = join SOH (fieldsOf enc).dropLast := by
+      ckParse v = some ((sum pre + 1) % 256) ∧ pre = join SOH (fieldsOf enc).dropLast := by
   obtain ⟨F, v, hf, _, hv, hpy, henc⟩ := decode_checksum h
   have hd : (fieldsOf enc).dropLast = F := by rw [hf]; simp
   rcases henc with h0 | h0
@@ -118,7 +148,7 @@ whatever follows it in the buffer -/
 theorem mismatching_frame_rejected (bs : Bytes) (tbl : Tbl) {pre v : Bytes}
     (hm : isPrefix marker pre = true)
     (hck : findSub cksumPat (pre ++ cksumPat) = some pre.length) (hv : SOH ∉ v)
-    (hbad : pyInt v ≠ some (((sum pre + 1) % 256 : Nat) : Int)) (rest : Bytes) (m : Msg) (n : Nat) (e : Bytes) :
+    (hbad : ckParse v ≠ some ((sum pre + 1) % 256)) (rest : Bytes) (m : Msg) (n : Nat) (e : Bytes) :
     decode bs tbl (pre ++ cksumPat ++ v ++ SOH :: rest) ≠ .msg m n e := by
   intro h
   have h' := h
